@@ -166,6 +166,20 @@ func (cls *CachedLocations) Open(ctx *Context, sys *System, name string, check b
 	}
 
 	cls.Unlock()
+
+	if check {
+		// The location might have been cached by a request that
+		// did not check for existence (for example, when the
+		// location was loaded as another location's parent).
+		created, err := locationCreated(ctx, loc)
+		if err != nil {
+			return nil, err
+		}
+		if !created {
+			return nil, NewNotFoundError("%s", name)
+		}
+	}
+
 	return loc, err
 }
 
